@@ -1,0 +1,14 @@
+//go:build verif
+
+package disk
+
+// VerifHook, when non-nil, is called at instrumented points of the library.
+// It exists only in verification builds (build tag "verif") and lets an
+// external harness observe and gate critical sections.
+var VerifHook func(point string, a uint64)
+
+func verifHook(point string, a uint64) {
+	if h := VerifHook; h != nil {
+		h(point, a)
+	}
+}
